@@ -127,6 +127,32 @@ class SectionContainer(Container):
         self._file._h5group.delete_all(secids)
 
 
+class BlockContainer(Container):
+    """
+    BlockContainer extends Container with a new __delitem__ method.
+    When a Block is deleted, the entities it contains need to be deleted
+    individually to make sure that references to them from other Blocks
+    (e.g., the positions or extents of a MultiTag) are removed as well.
+    """
+    def __delitem__(self, item):
+        if not isinstance(item, Entity):
+            item = self[item]
+
+        if not isinstance(item, self._itemclass):
+            raise TypeError(
+                "Wrong item type: {} required or the name or ID of one".format(
+                    self._itemclass.__name__)
+            )
+
+        # collect the IDs of everything the block contains
+        ids = [item.id]
+        for children in (item.data_arrays, item.data_frames, item.tags,
+                         item.multi_tags, item.groups):
+            ids.extend(child.id for child in children)
+        ids.extend(src.id for src in item.find_sources())
+        self._file._h5group.delete_all(ids)
+
+
 class SourceContainer(Container):
     """
     SourceContainer extends Container with a new __delitem__ method.
